@@ -77,6 +77,42 @@ def readImpl (impl : String) : Option ImplParse :=
     | _ => none
   | [] => none
 
+/-- extent of a non-empty token group -/
+def extentOf (g : List Token) : Option Span :=
+  match g.head?, g.getLast? with
+  | some a, some b => some ⟨a.start, b.stop⟩
+  | _, _ => none
+
+/-- the groups of a statement's tokens that begin at a top-level `|` (bracket depth 0) -/
+def pipeSegments (g : List Token) : List (List Token) :=
+  let rec go : List Token → Nat → List Token → List (List Token) → List (List Token)
+    | [], _, cur, acc => (if cur.isEmpty then acc else cur.reverse :: acc).reverse
+    | t :: rest, depth, cur, acc =>
+      if t.kind == .pipe && depth == 0 then
+        go rest depth [t] (if cur.isEmpty then acc else cur.reverse :: acc)
+      else
+        let depth := if t.kind == .lparen || t.kind == .lbracket then depth + 1
+          else if (t.kind == .rparen || t.kind == .rbracket) && depth > 0 then depth - 1 else depth
+        go rest depth (t :: cur) acc
+  go g 0 [] []
+
+/-- C10: "a node's overall span is the extent from its first to its last token" for the statement
+    and for each of its top-level operators (a token that no node records shortens a span) -/
+def extentClauses (st : Stmt) (g : List Token) : List String :=
+  (match extentOf g with
+   | some e => if st.spanOf == e then [] else ["c10-statement-span-not-token-extent"]
+   | none => []) ++
+  (match st with
+   | .tabular (.mk _ ops) =>
+     let segs := (pipeSegments g).filter fun sg => sg.head?.map (·.kind == .pipe) == some true
+     let os := ops.toList
+     if segs.length != os.length then []
+     else (os.zip segs).flatMap fun (o, sg) =>
+       match extentOf sg with
+       | some e => if o.spanOf == e then [] else ["c10-operator-span-not-token-extent"]
+       | none => []
+   | _ => [])
+
 /-- clauses violated by a parse result; `mustParse`: the source was generated from the grammar -/
 def clauses (src : Bytes) (impl : String) (mustParse : Bool) : List String :=
   match readImpl impl with
@@ -98,7 +134,7 @@ def clauses (src : Bytes) (impl : String) (mustParse : Bool) : List String :=
               (if Grammar.accounts false us g then
                 (if Grammar.accounts true us g then [] else ["c10-position"])
                else ["c08-unaccounted"]) ++
-              (if Grammar.wfStmt st then [] else ["c07-grouping"])) ++
+              (if Grammar.wfStmt st then [] else ["c07-grouping"]) ++ extentClauses st g) ++
           (match r.stmts.mapM AstRead.parseSExp with
            | some ss => ss.flatMap nodeSpanClauses
            | none => [])
